@@ -29,8 +29,8 @@ class EasCtx:
         g = I.g
         for other in runs[1:]:
             # several evaluation paths (e.g. a sequential fast path) are fine as long as they are the same call
-            same = other[0] is runs[0][0] and set(other[2]) == set(runs[0][2]) and all(
-                g.same(other[2][k], runs[0][2][k]) for k in runs[0][2])
+            e0, e1 = getattr(runs[0][2], "entry", runs[0][2]), getattr(other[2], "entry", other[2])
+            same = other[0] is runs[0][0] and set(e1) == set(e0) and all(g.same(e1[k], e0[k]) for k in e0)
             if not same:
                 raise AnalysisError(f"the per-event kernel is reached {len(runs)} times from EAS.__call__ with "
                                     "different arguments")
